@@ -137,8 +137,12 @@ SITES.update({
     "tr1": _site(0.5, 0.3, 0.8, 0.1, -0.1, blo=-0.25),
     "tr2": _site(0.4375, 0.3, 0.8, 0.1, -0.1, blo=-0.25),
     "tr3": _site(0.5625, 0.3, 0.8, 0.1, -0.1, blo=-0.25),
+    # "layered": a two-layer sphere whose layer radii are parameters (any
+    # negative radius makes the scatterer invalid)
+    "lr1": _site(0.3, 0.1, 0.45, 0.05, -0.1, blo=-0.25),
+    "lr2": _site(0.5, 0.46, 0.8, 0.05, -0.1, blo=-0.25),
 })
-RADIUS_SITES = ("r", "r1", "wr1", "wr2", "tr1", "tr2", "tr3")
+RADIUS_SITES = ("r", "r1", "wr1", "wr2", "tr1", "tr2", "tr3", "lr1", "lr2")
 VAL_NAMES_UB = ["guess", "lower", "upper", "lower-1ulp", "upper+1ulp",
                 "interior", "far"]
 VAL_NAMES_G = ["guess", "mu-2sd", "mu+2sd", "interior", "far"]
@@ -182,11 +186,16 @@ KIND_SITES = {
     "tie3": ["tn", "tr1", "tr2", "tr3", "alpha"],
     "tie3-rev": ["tn", "tr1", "tr2", "tr3", "alpha"],
     "tie2of3": ["tn", "tr1", "tr2", "tr3", "alpha"],
+    "layered": ["n", "lr1", "lr2", "alpha"],
+    # three spheres under LimitOverlaps: the pair that can overlap does not
+    # include the sphere listed last
+    "three-0.1": ["r1", "x2", "alpha"],
 }
-EXTRA_KINDS = ["norad", "exact-norad", "wide", "tie3", "tie3-rev", "tie2of3"]
+EXTRA_KINDS = ["norad", "exact-norad", "wide", "tie3", "tie3-rev", "tie2of3",
+               "layered", "three-0.1"]
 TIE3_CENTERS = [(0.0, 0.1, 5.0), (1.5, 0.1, 5.0), (0.25, 1.625, 5.5)]
 FRACTION = {"two-0.1": 0.1, "two-0": 0, "two-1": 1, "two-0.125": 0.125,
-            "two-tied": 0.1}
+            "two-tied": 0.1, "three-0.1": 0.1}
 NOISES = ["model", "data", "both", "none", "model-prior", "model@2ch",
           "model-ch", "data-ch", "both-ch"]
 OPTICS = ["model", "data", "both", "split"]
@@ -373,12 +382,19 @@ class Ctx:
 def _mk_scat(kind, g):
     """the scatterer of a model kind from g(site, fixed value)"""
     from holopy.scattering import Sphere, Spheres
-    if kind.startswith("two"):
+    if kind.startswith("two") or kind.startswith("three"):
         tied = kind == "two-tied"
-        return Spheres([Sphere(n=1.59, r=g("r1", 0.5),
-                               center=(0.0, 0.1, 5.0)),
-                        Sphere(n=1.45, r=g("r1", 0.5) if tied else R2,
-                               center=(g("x2", 1.5), 0.1, 5.0))], warn=False)
+        mem = [Sphere(n=1.59, r=g("r1", 0.5), center=(0.0, 0.1, 5.0)),
+               Sphere(n=1.45, r=g("r1", 0.5) if tied else R2,
+                      center=(g("x2", 1.5), 0.1, 5.0))]
+        if kind.startswith("three"):
+            # far from the other two for every value of the alphabets
+            mem.append(Sphere(n=1.5, r=0.25, center=(0.0, 3.5, 5.0)))
+        return Spheres(mem, warn=False)
+    if kind == "layered":
+        return Sphere(n=[g("n", 1.59), 1.45],
+                      r=[g("lr1", 0.3), g("lr2", 0.5)],
+                      center=(0.17, 0.11, 5.0))
     if kind == "wide":
         return Spheres([Sphere(n=g("wn1", 1.59), r=g("wr1", 0.5),
                                center=(g("wx1", 0.0625), g("wy1", 0.1),
@@ -429,7 +445,7 @@ def build(cfg, shape=(4, 4), subset_pixels=7):
         return P[s] if s in P else fixed
 
     # ---- scatterer / theory with priors -----------------------------------
-    c.two = kind.startswith("two")
+    c.two = kind.startswith("two") or kind.startswith("three")
     c.tied = kind == "two-tied"
     constraints = [LimitOverlaps(FRACTION[kind])] if c.two else []
     tie_names = None
